@@ -15,12 +15,15 @@ import (
 	"verif/harness/internal/hpkex"
 	"verif/harness/internal/mon"
 	"verif/harness/internal/tap"
+	"verif/harness/internal/tlswire"
 )
 
 // virtualCheck: part (b) of the property in virtual time. The client stalls
 // after o bytes; the context is cancelled (or expires) at virtual time c;
 // NewConn must fail at exactly that instant ("promptly"), and a context that
 // ends AFTER a successful return must leave the transport's deadline alone.
+var fragmented bool
+
 func virtualCheck(t *testing.T) {
 	r := mon.Start(t, "C10", "exploration")
 	defer r.Finish()
@@ -31,6 +34,16 @@ func virtualCheck(t *testing.T) {
 	o.MaxExtra = 1
 	hello := echgen.Gen(r.Rand("fixtures", 0), k, hpkex.AES128GCM, o).Record()
 	keys := []ech.Key{k.TLSKey()}
+	// the same hello split across three records: the context must bound the WHOLE first ClientHello
+	{
+		msg := hello[5:]
+		var fr []byte
+		for _, part := range [][]byte{msg[:len(msg)/3], msg[len(msg)/3 : 2*len(msg)/3], msg[2*len(msg)/3:]} {
+			fr = append(fr, tlswire.Record(22, 0x0301, part)...)
+		}
+		hello = append(append([]byte{}, fr...), 0)[:len(fr)]
+		fragmented = true
+	}
 	idx := 0
 	for off := 0; off < len(hello); off += 7 {
 		for _, kind := range []string{"cancel", "deadline"} {
@@ -40,8 +53,15 @@ func virtualCheck(t *testing.T) {
 				var elapsed time.Duration
 				var err error
 				done := false
+				deadlock := ""
 				ok := t.Run(fmt.Sprintf("v%d", idx), func(t *testing.T) {
-					synctest.Test(t, func(t *testing.T) {
+					// a deadlocked bubble (NewConn blocked for ever) panics on this goroutine: that is a verdict, not a crash
+			defer func() {
+				if p := recover(); p != nil {
+					deadlock = fmt.Sprint(p)
+				}
+			}()
+			synctest.Test(t, func(t *testing.T) {
 						tc := tap.New(nil)
 						tc.Feed(hello[:off])
 						var ctx context.Context
@@ -62,8 +82,8 @@ func virtualCheck(t *testing.T) {
 				})
 				r.Eval(fmt.Sprintf("stall|%d|%s|%v", off, kind, c))
 				switch {
-				case !ok || !done:
-					r.Violate("virtual", idx, "blocked:newconn-did-not-return", "NewConn stayed blocked after its context ended", cs)
+				case deadlock != "" || !ok || !done:
+					r.Violate("virtual", idx, "blocked:newconn-did-not-return", "NewConn stayed blocked after its context ended ("+deadlock+")", cs)
 				case err == nil:
 					r.Violate("virtual", idx, "blocked:no-error", "NewConn succeeded on an incomplete hello", cs)
 				case elapsed != c:
@@ -82,8 +102,15 @@ func virtualCheck(t *testing.T) {
 			var err error
 			var lateDeadline bool
 			var ioErr error
+			deadlock := ""
 			ok := t.Run(fmt.Sprintf("a%d", idx), func(t *testing.T) {
-				synctest.Test(t, func(t *testing.T) {
+				// a deadlocked bubble (NewConn blocked for ever) panics on this goroutine: that is a verdict, not a crash
+			defer func() {
+				if p := recover(); p != nil {
+					deadlock = fmt.Sprint(p)
+				}
+			}()
+			synctest.Test(t, func(t *testing.T) {
 					tc := tap.New(nil)
 					time.AfterFunc(10*time.Millisecond, func() { tc.Feed(hello) })
 					ctx, cancel := context.WithTimeout(context.Background(), ctxEnd)
@@ -106,8 +133,8 @@ func virtualCheck(t *testing.T) {
 			})
 			r.Eval(fmt.Sprintf("complete|%v|%d", ctxEnd, rep%4))
 			switch {
-			case !ok:
-				r.Violate("virtual", idx, "bubble-failed", "bubble did not complete", cs)
+			case deadlock != "" || !ok:
+				r.Violate("virtual", idx, "bubble-failed", "bubble did not complete: "+deadlock, cs)
 			case err != nil && ctxEnd > 10*time.Millisecond:
 				r.Violate("virtual", idx, "newconn-error-with-live-context", fmt.Sprintf("the hello arrived at 10ms, the context ends at %v, NewConn failed: %v", ctxEnd, err), cs)
 			case err == nil && ctxEnd < 10*time.Millisecond:
